@@ -46,6 +46,19 @@ Theorem C07_transient : forall (tp : string) (grace now timeout : Z) (o : oracle
 Proof. exact reach_phase_fault_free. Qed.
 Print Assumptions C07_transient.
 
+(* Partial decodes are never trusted: a reachable manifest list or manifest whose Avro stream yields the records `decoded`
+   and THEN fails (a damaged later record, block or sync marker; a read error mid-stream; caught = whether the exception is
+   of the class the readers catch and answer with the JSON fallback) is never read as the records decoded so far -- by any
+   read, under any fault oracle -- and the collection aborts before the first sweep having deleted nothing. *)
+Theorem C07_partial_decode : forall (tp : string) (grace now timeout : Z) (o : oracle) (snaps : list string) (st : store)
+    (k : key) (ob : obj) (decoded : list string) (caught : bool),
+  wf_store snaps st -> lookup k st = Some ob -> body ob = CPartialAvro decoded caught ->
+  ref_list snaps k \/ ref_manifest snaps st k ->
+  (forall w o' g, g_store g = st -> fst (read_one w o' g k) = None)
+  /\ aborted_before_sweep (gc_run tp grace now timeout o snaps st) /\ r_deleted (gc_run tp grace now timeout o snaps st) = [].
+Proof. exact partial_decode_aborts. Qed.
+Print Assumptions C07_partial_decode.
+
 (* A marker whose stat or delete fails -- more generally ANY marker that is still present after the run -- kept
    everything it denotes (its payload path, or when the payload is unusable every path its name can denote) out of the
    deleted set; and a marker disappears only when it is older than the abandonment timeout. *)
@@ -82,4 +95,28 @@ Proof.
   - exists "metadata/manifests/l2.avro", ["metadata/manifests/m1.avro"; "metadata/manifests/m2.avro"], "metadata/manifests/m2.avro".
     repeat split; simpl; auto. eexists; split; reflexivity.
   - vm_compute. reflexivity.
+Qed.
+
+(* Non-vacuity of C07_partial_decode, and why it matters: in the example store the newest manifest list l2 names m1 and m2.
+   If its stream fails after m1 was decoded (ex_partial) the run aborts with nothing deleted; a reader that handed back the
+   records decoded so far would make the collector see the list ex_prefix_trusted -- and then the live data file b.parquet
+   and its manifest m2 are deleted. *)
+Definition replace_body (k : key) (c : content) (st : store) : store :=
+  map (fun p => if String.eqb (fst p) k then (fst p, mkObj (mtime (snd p)) c) else p) st.
+Definition ex_partial : store := replace_body "metadata/manifests/l2.avro" (CPartialAvro ["metadata/manifests/m1.avro"] true) ex_st.
+Definition ex_prefix_trusted : store := replace_body "metadata/manifests/l2.avro" (CList FAvro ["metadata/manifests/m1.avro"]) ex_st.
+Example C07_partial_nonvacuous :
+  wf_store ex_snaps ex_partial /\ ref_list ex_snaps "metadata/manifests/l2.avro"
+  /\ (r_out (run_with no_faults ex_partial), r_deleted (run_with no_faults ex_partial)) = (Aborted PhLists, [])
+  /\ referenced ex_snaps ex_st "data/b.parquet"
+  /\ In "data/b.parquet" (r_deleted (run_with no_faults ex_prefix_trusted))
+  /\ In "metadata/manifests/m2.avro" (r_deleted (run_with no_faults ex_prefix_trusted)).
+Proof.
+  split; [apply wf_storeb_sound; vm_compute; reflexivity|].
+  split; [exists "metadata/manifests/l2.avro"; repeat split; simpl; auto|].
+  split; [vm_compute; reflexivity|]. split.
+  - right. right. exists "metadata/manifests/l2.avro", ["metadata/manifests/m1.avro"; "metadata/manifests/m2.avro"], "metadata/manifests/m2.avro",
+      ["/data/b.parquet"], "/data/b.parquet".
+    repeat split; simpl; auto; eexists; split; reflexivity.
+  - split; vm_compute; tauto.
 Qed.
